@@ -660,6 +660,15 @@ func (sm *logSyncerSM) ApplyRaftRequest(isReplaying bool, batch IBatchOperator, 
 			}
 		}
 	}
+	// once stopped nothing more should be sent: if both the send and the stop are ready the select
+	// picks one at random, which would send a log with holes while the backlog is applied after stop.
+	select {
+	case <-stop:
+		return false, nil
+	case <-sm.sendStop:
+		return false, nil
+	default:
+	}
 	select {
 	case sm.sendCh <- reqList:
 	case <-stop:
